@@ -44,7 +44,7 @@ def _slice(f, a, b, c, mask, parts):
 
 def h_sound(f: int, a: int, b: int, c: int, mask: int) -> bool:
     """
-    pre: 0 <= f < 29 and -2 <= a <= 2 and -2 <= b <= 2 and 0 <= c < 4 and 4 <= mask <= 7
+    pre: 0 <= f < 35 and -2 <= a <= 2 and -2 <= b <= 2 and 0 <= c < 4 and 4 <= mask <= 7
     post: _
     """
     return _slice(f, a, b, c, mask, 3)
@@ -52,7 +52,7 @@ def h_sound(f: int, a: int, b: int, c: int, mask: int) -> bool:
 
 def h_complete(f: int, a: int, b: int, c: int, mask: int) -> bool:
     """
-    pre: 0 <= f < 29 and -2 <= a <= 2 and -2 <= b <= 2 and 0 <= c < 8 and 4 <= mask <= 7
+    pre: 0 <= f < 35 and -2 <= a <= 2 and -2 <= b <= 2 and 0 <= c < 8 and 4 <= mask <= 7
     post: _
     """
     return _slice(f, a, b, c, mask, 4)
@@ -60,7 +60,7 @@ def h_complete(f: int, a: int, b: int, c: int, mask: int) -> bool:
 
 def h_sound_t(f: int, a: int, b: int, c: int, mask: int) -> bool:
     """
-    pre: 0 <= f < 29 and -3 <= a <= 3 and -3 <= b <= 3 and 0 <= c < 64 and 4 <= mask <= 7
+    pre: 0 <= f < 35 and -3 <= a <= 3 and -3 <= b <= 3 and 0 <= c < 64 and 4 <= mask <= 7
     post: _
     """
     return _slice(f, a, b, c, mask, 3)
@@ -68,7 +68,7 @@ def h_sound_t(f: int, a: int, b: int, c: int, mask: int) -> bool:
 
 def h_complete_t(f: int, a: int, b: int, c: int, mask: int) -> bool:
     """
-    pre: 0 <= f < 29 and -3 <= a <= 3 and -3 <= b <= 3 and 0 <= c < 64 and 4 <= mask <= 7
+    pre: 0 <= f < 35 and -3 <= a <= 3 and -3 <= b <= 3 and 0 <= c < 64 and 4 <= mask <= 7
     post: _
     """
     return _slice(f, a, b, c, mask, 4)
@@ -76,7 +76,7 @@ def h_complete_t(f: int, a: int, b: int, c: int, mask: int) -> bool:
 
 def h_exec(f: int, a: int, b: int, shape: int, akind: int) -> bool:
     """
-    pre: 0 <= f < 29 and -2 <= a <= 2 and -2 <= b <= 2 and 0 <= shape <= 1 and 0 <= akind <= 3
+    pre: 0 <= f < 35 and -2 <= a <= 2 and -2 <= b <= 2 and 0 <= shape <= 1 and 0 <= akind <= 3
     post: _
     """
     f, a, b, shape, akind = realize((f, a, b, shape, akind))
@@ -85,7 +85,7 @@ def h_exec(f: int, a: int, b: int, shape: int, akind: int) -> bool:
 
 META = {
     "level": "model_checking",
-    "claim": "Bounded, solver-enumerated concrete structures: for each of the 29 entry functions of corpus/C09_funcs.py (assignments, "
+    "claim": "Bounded, solver-enumerated concrete structures: for each of the 35 (quick: 30) entry functions of corpus/C09_funcs.py (assignments, "
              "arithmetic, if/elif/else, while/for, nested loops, break/continue, early return, nested and recursive calls, methods, "
              "attribute and subscript stores/loads, aliasing, tuple returns and unpacking, globals read and written across calls, "
              "augmented assignment, and/or/conditional expressions, chained comparisons, is-None tests, raise), every argument pair "
@@ -115,7 +115,7 @@ META = {
                   "compute_statement_checked_lines/compute_assertion_checked_coverage/_cleanse_included_implicit_return_none",
                   "RemoteStatementSlicingObserver", "RemoteAssertionExecutionObserver + ExecutionTracer.track_assertion_position",
                   "TestCaseExecutor.execute (instrumented statements)"],
-    "bounds": {"corpus": "corpus/C09_funcs.py, 29 entry functions + 12 helpers/methods", "arguments": "quick [-2,2]^2, thorough [-3,3]^2 "
+    "bounds": {"corpus": "corpus/C09_funcs.py, 35 entry functions (quick: the first 30) + 13 helpers/methods", "arguments": "quick [-2,2]^2, thorough [-3,3]^2 "
                "(executor path [-2,2]^2)", "criteria": "the last 8 (quick; soundness 4) / 64 (thorough) return/store/conditional-jump instructions of "
                "the run part of the trace, plus the last traced instruction of a run that raised", "metric sets": "CHECKED alone and BRANCH+LINE+CHECKED", "test cases": "shape 0: one call; "
                "1: call + inc(result); assertion kinds: Object, Float, none, Object on an earlier int variable"},
@@ -139,7 +139,7 @@ def obligations(tier: str):
 
     q = tier == "quick"
     T = 300 if q else 2400
-    fs = list(range(NF))
+    fs = list(range(30 if q else NF))  # the last five corpus functions are checked in the thorough tier only
     if q:
         # a, b in [-2, 2]; soundness: the last 4 criteria on BRANCH+LINE+CHECKED; completeness: the last 8 on CHECKED alone
         return [Chx("sound", h_sound, timeout=T, path_timeout=120, fix={"mask": 7}, split={"f": fs}),
